@@ -134,16 +134,24 @@ pub fn mal_vec_wide_len<S: Src>(s: &mut S) {
     }
 }
 
-/// BitVec (new storage format): arbitrary declared bit count over a 4-byte storage: error or a BitVec that claims at
-/// most the 32 bits the input encodes; never a panic.
-pub fn mal_bitvec_len<S: Src>(s: &mut S) {
+/// BitVec (new storage format): arbitrary declared bit count over a storage of 4..=8 bytes (also byte counts that are
+/// not a whole number of 32-bit words): error, or a BitVec that claims no more bits than the storage it actually
+/// holds (and therefore no more than the input encodes); never a panic.
+pub fn mal_bitvec_len<S: Src, const NB: usize>(s: &mut S) {
     let numbits = s.u64();
-    let body: [u8; 4] = s.bytes::<4>();
+    let nb = NB;
+    let body: [u8; 8] = s.u64().to_le_bytes();
     let mut bytes = numbits.to_le_bytes().to_vec();
-    bytes.extend_from_slice(&((1u64 << 63) | 4).to_le_bytes());
-    bytes.extend_from_slice(&body);
+    bytes.extend_from_slice(&((1u64 << 63) | nb as u64).to_le_bytes());
+    bytes.extend_from_slice(&body[..nb]);
     let mut rd: &[u8] = &bytes[..];
     if let Ok(v) = Deserializer::bare_deserialize::<bit_vec::BitVec>(&mut rd, 0) {
-        assert!(v.len() <= 32, "C06: a loaded BitVec never claims more bits than the input could have encoded");
+        assert!(v.len() <= v.storage().len() * 32, "C06: a loaded BitVec never claims more bits than its storage holds");
+        assert!(v.len() <= nb * 8, "C06: a loaded BitVec never claims more bits than the input could have encoded");
     }
+}
+
+/// native enumeration over the storage sizes 4..=8 bytes
+pub fn mal_bitvec_all<S: Src>(s: &mut S) {
+    match s.below(5) { 0 => mal_bitvec_len::<S, 4>(s), 1 => mal_bitvec_len::<S, 5>(s), 2 => mal_bitvec_len::<S, 6>(s), 3 => mal_bitvec_len::<S, 7>(s), _ => mal_bitvec_len::<S, 8>(s) }
 }
